@@ -900,12 +900,22 @@ package restful
 //@ opt opaque svcRegisters isRootSvc
 //@ loop 0 invariant distinct: forall(0, len(c.webServices), func(k int) bool { return c.webServices[k].rootPath != service.rootPath })
 
+// the root path is recorded (an empty one as "/") and compiled; a template that does not compile ends the
+// process (os.Exit), so that is a precondition here
+//@ func (*WebService).compilePathExpression
+//@ props C11
+//@ requires w != nil && pathCompiles(w.rootPath)
+//@ modifies w.pathExpr
+//@ ensures w.pathExpr != nil && w.rootPath == old(w.rootPath)
+//@ nopanic
+
 //@ func (*WebService).Path
 //@ props C11
-//@ trusted not verified: the body compiles a regular expression (outside the subset); Add's contract excludes the only call that reaches it (empty root path)
-//@ requires w != nil
+//@ requires w != nil && pathCompiles(root) && pathCompiles("/")
 //@ modifies w.rootPath, w.pathExpr
 //@ ensures result == w && (root == "" ==> w.rootPath == "/") && (root != "" ==> w.rootPath == root)
+//@ ensures compiled: w.pathExpr != nil
+//@ nopanic
 
 //@ func (*Container).Remove
 //@ props C11 C12
@@ -1001,6 +1011,76 @@ package restful
 // ---------------------------------------------------------------------------
 // BoundedCachedCompressors (C13): non-blocking under interference; what it
 // hands out comes out of the pool or is new; what it pools was handed back.
+
+// The default provider, SyncPoolCompessors (C13): what sync.Pool does is assumed (A-POOL: Get hands out an object
+// that was Put and that nobody holds, or what New returns, of the kind the pool holds; neither Get nor Put
+// blocks). Proved: Acquire* hands out exactly what the pool of the right kind gave, Release* puts back exactly
+// the object it was given, once, into the pool of the right kind.
+//@ func ext:(*sync.Pool).Get
+//@ props C13
+//@ trusted A-POOL: an object of the pool's kind that no one holds; never blocks
+//@ requires self != nil
+//@ modifies nothing
+//@ ensures kind1: poolKind(self) == 1 ==> anyGzipWriter(result)
+//@ ensures kind2: poolKind(self) == 2 ==> anyGzipReader(result)
+//@ ensures kind3: poolKind(self) == 3 ==> anyZlibWriter(result)
+//@ nopanic
+
+//@ func ext:(*sync.Pool).Put
+//@ ghostinc own.puts self
+//@ props C13
+//@ trusted A-POOL: gives the object up; never blocks
+//@ requires self != nil
+//@ modifies nothing
+//@ nopanic
+
+//@ func (*SyncPoolCompessors).AcquireGzipWriter
+//@ props C13
+//@ requires syncPoolsOK(s)
+//@ ensures result != nil
+//@ callsite ext:(*sync.Pool).Get pool: self == s.GzipWriterPool
+//@ modifies nothing
+//@ nopanic
+
+//@ func (*SyncPoolCompessors).AcquireGzipReader
+//@ props C13
+//@ requires syncPoolsOK(s)
+//@ ensures result != nil
+//@ callsite ext:(*sync.Pool).Get pool: self == s.GzipReaderPool
+//@ modifies nothing
+//@ nopanic
+
+//@ func (*SyncPoolCompessors).AcquireZlibWriter
+//@ props C13
+//@ requires syncPoolsOK(s)
+//@ ensures result != nil
+//@ callsite ext:(*sync.Pool).Get pool: self == s.ZlibWriterPool
+//@ modifies nothing
+//@ nopanic
+
+//@ func (*SyncPoolCompessors).ReleaseGzipWriter
+//@ props C13
+//@ requires syncPoolsOK(s)
+//@ callsite ext:(*sync.Pool).Put back: self == s.GzipWriterPool && anyGzipWriter(arg0) == (w != nil) && (w != nil ==> arg0.(*gzip.Writer) == w) && calls() == old(calls())
+//@ ensures once: ghostInt("own.puts", s.GzipWriterPool) == ghostIntAtEntry("own.puts", s.GzipWriterPool) + 1
+//@ modifies ghost $g.own.puts
+//@ nopanic
+
+//@ func (*SyncPoolCompessors).ReleaseGzipReader
+//@ props C13
+//@ requires syncPoolsOK(s)
+//@ callsite ext:(*sync.Pool).Put back: self == s.GzipReaderPool && (r != nil ==> arg0.(*gzip.Reader) == r)
+//@ ensures once: ghostInt("own.puts", s.GzipReaderPool) == ghostIntAtEntry("own.puts", s.GzipReaderPool) + 1
+//@ modifies ghost $g.own.puts
+//@ nopanic
+
+//@ func (*SyncPoolCompessors).ReleaseZlibWriter
+//@ props C13
+//@ requires syncPoolsOK(s)
+//@ callsite ext:(*sync.Pool).Put back: self == s.ZlibWriterPool && (w != nil ==> arg0.(*zlib.Writer) == w)
+//@ ensures once: ghostInt("own.puts", s.ZlibWriterPool) == ghostIntAtEntry("own.puts", s.ZlibWriterPool) + 1
+//@ modifies ghost $g.own.puts
+//@ nopanic
 
 //@ func newGzipWriter
 //@ props C13
